@@ -1,6 +1,7 @@
 package world
 
 import (
+	"verif/atomixtap"
 	"context"
 	"fmt"
 	"os"
@@ -10,7 +11,6 @@ import (
 	"sync/atomic"
 	"time"
 
-	"github.com/atomix/go-sdk/pkg/test"
 	adminapi "github.com/onosproject/onos-api/go/onos/config/admin"
 	configapi "github.com/onosproject/onos-api/go/onos/config/v2"
 	topoapi "github.com/onosproject/onos-api/go/onos/topo"
@@ -64,7 +64,7 @@ type Event struct {
 // World is one simulated deployment: one Atomix cluster (the "disk"), one topology, devices,
 // and a sequence of onos-config process incarnations
 type World struct {
-	Atomix   *test.Client
+	Atomix   *atomixtap.Client
 	Topo     *Topo
 	Schema   *refmodel.Schema
 	Plugin   *Plugin
@@ -82,6 +82,8 @@ type World struct {
 	writes     int64 // successful store writes + device requests (stability detection)
 	lastChange int64 // unix nanos of the last successful write / device request / env action
 	crashAt    int64 // kill the incarnation just before this effect (0 = never)
+	crashAtRPC int64 // kill the incarnation just before this Atomix write RPC (0 = never)
+	rpcWrites  int64 // Atomix write RPCs issued by the system under test
 	Crashed    chan struct{}
 	connGen    map[string]int
 
@@ -128,7 +130,7 @@ type Options struct {
 
 // New builds a world with the default synthetic schema and starts the first incarnation
 func New(opts Options) (*World, error) {
-	w := &World{born: time.Now(), Atomix: test.NewClient(), Topo: NewTopo(), Schema: refmodel.DefaultSchema(), Devices: map[string]*Device{},
+	w := &World{born: time.Now(), Atomix: atomixtap.NewClient(), Topo: NewTopo(), Schema: refmodel.DefaultSchema(), Devices: map[string]*Device{},
 		Crashed: make(chan struct{}, 16), connGen: map[string]int{}}
 	w.Plugin = &Plugin{Schema: w.Schema, w: w}
 	w.Registry = pluginregistry.NewPluginRegistry("fake-plugin-endpoint")
@@ -263,6 +265,47 @@ func (inc *Incarnation) gate(kind string, effect bool) {
 	}
 }
 
+// rpcTap is called before every unary Atomix RPC issued through this incarnation's stores, in the caller's
+// goroutine. Goroutines of the system under test (controller tasks, handlers) are parked here once the
+// incarnation is dead, and the process can be killed just before its n-th Atomix write: that addresses the
+// gaps between the individual Atomix writes of one store method (path values, then the entry).
+func (inc *Incarnation) rpcTap(method string) {
+	if currentTaskObj() == nil {
+		return // the harness' own reads, store-internal goroutines
+	}
+	if inc.dead.Load() {
+		select {}
+	}
+	if !isWriteRPC(method) {
+		return
+	}
+	w := inc.w
+	n := atomic.AddInt64(&w.rpcWrites, 1)
+	if c := atomic.LoadInt64(&w.crashAtRPC); c > 0 && n == c {
+		inc.dead.Store(true)
+		w.logEvent(&Event{Kind: "env.crash", OK: true, Note: fmt.Sprintf("process killed just before Atomix write %d (rpc.%s by %s)", n, method[strings.LastIndex(method, ".")+1:], CurrentTask()), Inc: inc.N})
+		select {
+		case w.Crashed <- struct{}{}:
+		default:
+		}
+		select {}
+	}
+}
+
+func isWriteRPC(method string) bool {
+	switch method[strings.LastIndex(method, "/")+1:] {
+	case "Put", "Insert", "Update", "Remove", "Clear", "Append", "Commit", "Apply", "Set", "Delete":
+		return true
+	}
+	return false
+}
+
+// CrashBeforeRPC kills the incarnation just before the n-th Atomix write RPC issued by the system under test
+func (w *World) CrashBeforeRPC(n int64) { atomic.StoreInt64(&w.crashAtRPC, n) }
+
+// RPCWrites is the number of Atomix write RPCs issued by the system under test so far
+func (w *World) RPCWrites() int64 { return atomic.LoadInt64(&w.rpcWrites) }
+
 // fault returns an injected transient store error for calls made by controller tasks
 func (inc *Incarnation) fault(kind string) error {
 	fp := inc.w.storeFault.Load()
@@ -294,13 +337,14 @@ func (w *World) startIncarnation(opts Options) error {
 	inc := &Incarnation{N: w.incCount, w: w, Conns: NewConns()}
 	w.mu.Unlock()
 	var err error
-	if inc.RawCf, err = configuration.NewAtomixStore(w.Atomix); err != nil {
+	tapped := w.Atomix.Tapped(inc.rpcTap)
+	if inc.RawCf, err = configuration.NewAtomixStore(tapped); err != nil {
 		return err
 	}
-	if inc.RawPr, err = proposal.NewAtomixStore(w.Atomix); err != nil {
+	if inc.RawPr, err = proposal.NewAtomixStore(tapped); err != nil {
 		return err
 	}
-	if inc.RawTxs, err = transaction.NewAtomixStore(w.Atomix); err != nil {
+	if inc.RawTxs, err = transaction.NewAtomixStore(tapped); err != nil {
 		return err
 	}
 	inc.Cfgs = &cfgDeco{inner: inc.RawCf, inc: inc}
